@@ -35,10 +35,10 @@ def checkShape (rtl : Bool) (n : Nat) (attempt : Nat → Option (Nat × Nat)) : 
     | none => true
     | some (i, l) => if rtl then i + l == p else i == p && decide (i + l ≤ n)
 
-/-- `FinderSkipSound` (Model/Finders.lean): a `false` answer vouches for the positions up to and
-    including the one the finder left — what the scan loop relies on.  (The stronger `FinderSound`,
-    "nothing anywhere ahead", is false of the real anchored finder: right-to-left `abc$` on "xabc\n"
-    answers `(false, end)` at the end while the match sits at `end-1`.) -/
+/-- `Scan.FinderSound`: a `false` answer vouches for the positions up to and including the one the
+    finder left — what the scan loop relies on.  (The stronger reading "nothing anywhere ahead" is false
+    of the real anchored finder: right-to-left `abc$` on "xabc\n" answers `(false, end)` at the end while
+    the match sits at `end-1`.) -/
 def checkFinder (rtl : Bool) (n start : Nat) (finder : Nat → Bool × Nat) (attempt : Nat → Option (Nat × Nat)) : Bool :=
   (scanOrder rtl n start).all fun pos =>
     let (f, q) := finder pos
